@@ -24,14 +24,6 @@
     dispatch on it are the text regenerated from their `switch (self->current_char)` statements.
 -/
 import CatVerif.Proofs.Quiesce
-import CatVerif.Proofs.Setters.Reset
-import CatVerif.Proofs.Setters.Prepare
-import CatVerif.Proofs.Setters.Flush
-import CatVerif.Proofs.Setters.HoldSet
-import CatVerif.Proofs.Readers.Frame
-import CatVerif.Proofs.Readers.Name
-import CatVerif.Proofs.Readers.Ack
-import CatVerif.Proofs.Steps.Leaves
 namespace Cat
 open St
 
@@ -119,33 +111,5 @@ theorem C20_scratch_rewritten (D : Desc) (s : St) :
     (prepareParseCommand D s).index = 0 ∧ (prepareParseCommand D s).length = 0 ∧ (prepareParseCommand D s).cmdType = .run ∧
     (prepareSearchCommand s).index = 0 ∧ (prepareSearchCommand s).partialCntr = 0 ∧ (prepareSearchCommand s).cmd = none := by
   simp [prepareParseCommand, prepareSearchCommand]
-
-/-- the model's per-line (re)initialisers are the assignment lists of the source (T7) -/
-theorem C20_setters_generated (D : Desc) (s : St) (a : After) :
-    resetState s = Gen.reset_state D s ∧
-    prepareParseCommand D s = Gen.prepare_parse_command D s ∧
-    prepareSearchCommand s = Gen.prepare_search_command D s ∧
-    startFlush s .cmd a = (Gen.start_flush_io_buffer D s a).emit (.flushStart .cmd false) ∧
-    startFlushRaw s a = (Gen.start_flush_io_buffer_raw D s a).emit (.flushStart .cmd true) ∧
-    startFlush s .uns a = (Gen.unsolicited_start_flush_io_buffer D s a).emit (.flushStart .uns false) ∧
-    unsolicitedResetState s = Gen.unsolicited_reset_state D s ∧
-    enableHoldState s = Gen.enable_hold_state D s :=
-  ⟨resetState_generated D s, prepareParseCommand_generated D s, prepareSearchCommand_generated D s,
-   startFlush_cmd_generated D s a, startFlushRaw_generated D s a, startFlush_uns_generated D s a,
-   unsolicitedResetState_generated D s, enableHoldState_generated D s⟩
-
-/-- line framing — which byte leads where in the six reading-and-dispatching states, where CR is
-recorded, which bytes IDLE ignores — is, in the model, the text regenerated from the `switch
-(self->current_char)` statements of the source (translator item T8) -/
-theorem C20_framing_generated (D : Desc) :
-    errorState = Gen.error_state ∧ processIdleState = Gen.process_idle_state D ∧ parsePrefix = Gen.parse_prefix ∧
-    parseCommand = Gen.parse_command ∧ waitReadAcknowledge = Gen.wait_read_acknowledge D ∧
-    waitTestAcknowledge = Gen.wait_test_acknowledge :=
-  ⟨errorState_generated, processIdleState_generated D, parsePrefix_generated, parseCommand_generated,
-   waitReadAcknowledge_generated D, waitTestAcknowledge_generated⟩
-
-/-- the line break of every response is chosen from `cr_flag` alone: the offset into the literal "\\r\\n" is the
-transliteration of `get_new_line_chars` (translator item T22) -/
-theorem C20_newline_generated (s : St) : nlOff s = Gen.get_new_line_chars s := nlOff_generated s
 
 end Cat
